@@ -810,6 +810,27 @@ Proof.
   - rewrite lookup_insert_ne in Hk by done. eapply li_reps; eauto.
 Qed.
 
+Lemma learn_local_lookup reps s M v k lr' :
+  learn_local reps s M v !! k = Some lr' →
+  ∃ lr, reps !! k = Some lr ∧ (lr' = lr ∨ (k.1 = s ∧ lr' = mkLRep true v)).
+Proof.
+  unfold learn_local. rewrite map_lookup_imap. destruct (reps !! k) as [lr|]; [|done]. cbn.
+  destruct (bool_decide (k.1 = s)) eqn:E; cbn [andb]; [|intros [= <-]; eauto].
+  apply bool_decide_eq_true in E. destruct (lr_running lr && is_member M k.2); intros [= <-]; eauto.
+Qed.
+
+(* after the history of shard s got its new head (version v), the proposer's replicas may know v *)
+Lemma learn_local_ok d hosts hist seen extra h fh s M v e' hs :
+  LI d hosts (<[s := e' :: hs]> hist) seen extra → hosts !! h = Some fh → e'.1 = v →
+  ∀ k lr, learn_local (fh_reps fh) s M v !! k = Some lr → rep_ok d (<[s := e' :: hs]> hist) k lr.
+Proof.
+  intros HI Eh Hv k lr' Hk. apply learn_local_lookup in Hk as (lr & Hk & [->|[Hs ->]]).
+  - eapply li_reps; eauto.
+  - destruct (li_reps _ _ _ _ _ HI _ _ _ _ Eh Hk) as (h0 & c & Hh0 & Hc & _ & Hb).
+    exists h0, c. split; [done|]. split; [done|]. split; [|done]. right. cbn [lr_ver].
+    rewrite Hs, lookup_insert in Hh0. injection Hh0 as <-. cbn. rewrite Hv, N.eqb_refl. by eexists.
+Qed.
+
 Lemma exec_req_inv d hosts hist seen q rest h ccok x' :
   LI d hosts hist seen (q :: rest) → exec_req h ccok (hosts, hist) q = Some x' → LI d x'.1 x'.2 seen rest.
 Proof.
@@ -856,7 +877,8 @@ Proof.
     { apply LI_hist_step; [done|done|done|]. intros rid Hr. left. cbn in Hr |- *.
       apply is_member_true in Hr as [a Ha]. apply lookup_delete_Some in Ha as [_ Ha]. apply is_member_true. by eexists. }
     eapply LI_set_reps; [exact Eh| |exact HI'].
-    intros k lr Hk. apply lookup_delete_Some in Hk as [_ Hk]. eapply (li_reps _ _ _ _ _ HI'); eauto.
+    intros k lr Hk. apply lookup_delete_Some in Hk as [_ Hk].
+    by eapply (learn_local_ok _ _ _ _ _ _ _ _ _ _ _ _ HI' Eh).
   - (* ADD *)
     destruct Hreq as (x & t & Hm & Ha & Hx & Hrest). rewrite Hm, Ha. intros [= <-].
     destruct (hist_of hist (q_shard q)) as [|[v M] hs0] eqn:Ehs; cbn [fst snd]; [exact (LI_shrink _ _ _ _ _ _ Hsub HI)|].
@@ -879,12 +901,15 @@ Proof.
         + rewrite lookup_insert in H2. injection H2 as <-. rewrite lookup_insert_ne in H1 by done. by destruct (Hnot r1).
         + rewrite lookup_insert_ne in H1, H2 by done. eauto. }
     eapply LI_shrink; [exact Hsub|].
-    apply LI_hist_step; [done|done|done|]. intros rid Hr. cbn in Hr |- *.
-    destruct (decide (rid = x)) as [->|Hne].
-    + right. split; [done|]. split; [done|]. intros q' Hq' Hadd' Hs' Hm'.
-      assert (q_ccid q' = q_ccid q) as ->; [|lia].
-      apply (li_adds _ _ _ _ _ HI q' q); try done; [unfold is_add; by rewrite <- Ety|congruence].
-    + left. apply is_member_true in Hr as [a Hr]. rewrite lookup_insert_ne in Hr by done. apply is_member_true. by eexists.
+    assert (HI' : LI d hosts (<[q_shard q := (v + 1, <[x := t]> M) :: (v, M) :: hs0]> hist) seen (q :: rest)).
+    { apply LI_hist_step; [done|done|done|]. intros rid Hr. cbn in Hr |- *.
+      destruct (decide (rid = x)) as [->|Hne].
+      + right. split; [done|]. split; [done|]. intros q' Hq' Hadd' Hs' Hm'.
+        assert (q_ccid q' = q_ccid q) as ->; [|lia].
+        apply (li_adds _ _ _ _ _ HI q' q); try done; [unfold is_add; by rewrite <- Ety|congruence].
+      + left. apply is_member_true in Hr as [a Hr]. rewrite lookup_insert_ne in Hr by done. apply is_member_true. by eexists. }
+    eapply LI_set_reps; [exact Eh| |exact HI'].
+    intros k lr Hk. by eapply (learn_local_ok _ _ _ _ _ _ _ _ _ _ _ _ HI' Eh).
   - (* KILL *)
     destruct Hreq as (y & Hm & _). rewrite Hm. intros [= <-].
     destruct (fh_reps fh !! (q_shard q, y)) as [lr|] eqn:Ek; [|cbn; exact (LI_shrink _ _ _ _ _ _ Hsub HI)].
